@@ -280,7 +280,7 @@ func TestVerifReplay(t *testing.T) {
         src = '''package sm2
 import ("testing"; "bytes")
 type verifReader struct{ b []byte; used int }
-func (r *verifReader) Read(p []byte) (int, error) { n := copy(p, r.b[r.used:]); r.used += n; return n, nil }
+func (r *verifReader) Read(p []byte) (int, error) { if r.used >= len(r.b) { for i := range p { p[i] = 0x5a }; r.used += len(p); return len(p), nil }; n := copy(p, r.b[r.used:]); r.used += n; return n, nil }
 func TestVerifReplay(t *testing.T) {
 	rd := &verifReader{b: %s}
 	priv, x, y, err := GenerateKey(rd)
@@ -396,7 +396,7 @@ func TestVerifReplay(t *testing.T) {
 	}
 }
 type chunkReader struct{ b []byte; used, chunk int }
-func (r *chunkReader) Read(p []byte) (int, error) { if len(p) > r.chunk { p = p[:r.chunk] }; n := copy(p, r.b[r.used:]); r.used += n; return n, nil }
+func (r *chunkReader) Read(p []byte) (int, error) { if len(p) > r.chunk { p = p[:r.chunk] }; if r.used >= len(r.b) { for i := range p { p[i] = 0x5a }; r.used += len(p); return len(p), nil }; n := copy(p, r.b[r.used:]); r.used += n; return n, nil }
 var _ = bytes.Equal
 ''' % '\n'.join(rows)
     ok, out, path = ck.go_test('sm2', src, name='validate')
